@@ -9,6 +9,11 @@ use crate::util::io::ReadLine;
 use std::collections::HashMap;
 use std::io::{stdin, Write};
 
+/// Values bigger than this many 32-bit limbs end the speculation:
+/// the work of the optimizer has to stay bounded by the program text
+/// (a loop that keeps squaring a number reaches any size within the jump budget)
+const MAX_SPECULATED_SIZE: usize = 64;
+
 /// Optimization helper function for level 2 optimization
 fn opt_execute<T>(
     ipt: &mut impl ReadLine,
@@ -53,6 +58,9 @@ where
                     }
                     n += &pop_stack_wrap(ipt, out, err, &mut state, cur_stack)?;
                 }
+                if n.size() > MAX_SPECULATED_SIZE {
+                    return Ok((state_clone, false));
+                }
                 push_stack_wrap(out, err, &mut state, code.get_dot_count(), n)?;
             }
             2 => {
@@ -62,6 +70,9 @@ where
                         return Ok((state_clone, false));
                     }
                     n *= &pop_stack_wrap(ipt, out, err, &mut state, cur_stack)?;
+                }
+                if n.size() > MAX_SPECULATED_SIZE {
+                    return Ok((state_clone, false));
                 }
                 push_stack_wrap(out, err, &mut state, code.get_dot_count(), n)?;
             }
@@ -84,6 +95,9 @@ where
                     push_stack_wrap(out, err, &mut state, cur_stack, x)?;
                 }
 
+                if n.size() > MAX_SPECULATED_SIZE {
+                    return Ok((state_clone, false));
+                }
                 push_stack_wrap(out, err, &mut state, code.get_dot_count(), n)?;
             }
             4 => {
@@ -105,6 +119,9 @@ where
                     push_stack_wrap(out, err, &mut state, cur_stack, x)?;
                 }
 
+                if n.size() > MAX_SPECULATED_SIZE {
+                    return Ok((state_clone, false));
+                }
                 push_stack_wrap(out, err, &mut state, code.get_dot_count(), n)?;
             }
             // 5
